@@ -227,7 +227,8 @@ def deep_eq(a, b, path="$"):
     if isinstance(a, QName):
         return None if a.text == b.text else f"{path}: {a!r} != {b!r}"
     if hasattr(a, "_fields"):  # NamedTuple (XmlDate, XmlTime, XmlDateTime): component equality
-        return None if tuple(a) == tuple(b) else f"{path}: {a!r} != {b!r}"
+        # the property demands an *equal* object: XmlTime/XmlDateTime define == on the timeline
+        return None if (tuple(a) == tuple(b) or a == b) else f"{path}: {a!r} != {b!r}"
     if isinstance(a, Enum):
         return None if a is b else f"{path}: {a!r} != {b!r}"
     try:
